@@ -1,6 +1,7 @@
 (* C11 — property theorems only.  Proofs live in Proofs/VlanProofs.v. *)
 From Coq Require Import List String Bool Arith NArith Permutation.
-From Annet Require Import Base.Str Model.Vlan Model.VlanDb Spec.P_C11 Proofs.VlanProofs Proofs.VlanDbProofs.
+From Annet Require Import Base.Str Model.Vlan Model.VlanDb Model.VlanCisco Spec.P_C11
+     Proofs.VlanProofs Proofs.VlanDbProofs Proofs.VlanCiscoProofs.
 Import ListNotations.
 Open Scope string_scope.
 
@@ -176,4 +177,58 @@ Example C11_db_example_guard_nonvacuous :
   let new : dbcfg := ([(false, [(10, 10)]); (false, [(20, 20); (30, 30)])], [(20, ["name b"]); (40, [])])%N in
   wf_db (old, new) = true /\ blocks_follow_batch (old, new) = true /\
   db_struct old new = Some [GBatch (Add [(30, 30)]); GEnter 20 ["name b"]; GEnter 40 []]%N.
+Proof. vm_compute. repeat split. Qed.
+
+(* ====================================================================================== *)
+(* The Cisco / Nexus global `vlan` rule with blocks: list rows (`vlan 1-10,20`) and blocks
+   (`vlan 5` + option rows) live in one rule slot (cisco.vlandb.simple); the VLANs of the device
+   are the union of all rows.  Model: Model/VlanCisco.v (AFFECTED blocks, old_blocks/new_blocks,
+   the "block content removed but the VLAN stays" branch, hw.Catalyst, chunks of 15).
+   Guard rows_disjoint: in the old configuration a VLAN is written on one row (Catalyst shape). *)
+
+Theorem C11_cisco_blocks_final :
+  forall catalyst old new, rows_disjoint (catalyst, old, new) = true ->
+  forall gs, cisco_struct catalyst old new = Some gs ->
+  forall gs', Permutation gs' gs ->
+    NS.Equal (gsimulate gs' (Scdb_old (catalyst, old, new))) (Scdb_new (catalyst, old, new)).
+Proof. intros c old new G gs E gs' P. exact (cisco_final c old new G gs gs' E P). Qed.
+Print Assumptions C11_cisco_blocks_final.
+
+Theorem C11_cisco_blocks_no_transient_loss :
+  forall catalyst old new, rows_disjoint (catalyst, old, new) = true ->
+  forall gs, cisco_struct catalyst old new = Some gs ->
+  forall gs' l1 l2, Permutation gs' gs -> gs' = (l1 ++ l2)%list ->
+    NS.Subset (NS.inter (Scdb_old (catalyst, old, new)) (Scdb_new (catalyst, old, new)))
+              (gsimulate l1 (Scdb_old (catalyst, old, new))).
+Proof. intros c old new G gs E gs' l1 l2. exact (cisco_prefix c old new G gs gs' l1 l2 E). Qed.
+Print Assumptions C11_cisco_blocks_no_transient_loss.
+
+Theorem C11_cisco_blocks_holds :
+  forall catalyst old new gs, rows_disjoint (catalyst, old, new) = true ->
+    cisco_struct catalyst old new = Some gs -> cgcmds_ok (catalyst, old, new) gs = true.
+Proof. exact holds_cisco_struct. Qed.
+Print Assumptions C11_cisco_blocks_holds.
+
+(* Without the guard (what a Nexus prints: the VLAN of a block is also in the list row) the
+   statement is false of the shipped code: the block `vlan 5 / name x` disappears, the list row
+   `vlan 1-10` stays, the patch is `no vlan 5`: VLAN 5 (in S_old and in S_new) is removed.
+   Replayed on the real code by the check (corpus case, known finding). *)
+Definition f5_old : ccfg := [([(1, 10)], []); ([(5, 5)], ["name x"])]%N.
+Definition f5_new : ccfg := [([(1, 10)], [])]%N.
+
+Theorem C11_cisco_block_removed_refuted :
+  exists x gs, wf_cdb x = true /\ cisco_struct (cdb_cat x) (cdb_old x) (cdb_new x) = Some gs /\
+               cgcmds_ok x gs = false /\
+               cisco_rows (cdb_cat x) (print_ccfg (cdb_old x)) (print_ccfg (cdb_new x)) = Some [("no vlan 5", [])].
+Proof. exists (false, f5_old, f5_new), [GBatch (Remove [(5, 5)])]%N. vm_compute. repeat split. Qed.
+Print Assumptions C11_cisco_block_removed_refuted.
+
+(* non-vacuity of the guard: Catalyst shape, the block of VLAN 5 loses its name and VLAN 5 moves
+   into the list row, VLAN 20 gets a block *)
+Example C11_cisco_blocks_example :
+  let old : ccfg := [([(1, 4); (6, 10)], []); ([(5, 5)], ["name x"])]%N in
+  let new : ccfg := [([(1, 10)], []); ([(20, 20)], ["name y"])]%N in
+  wf_cdb (true, old, new) = true /\ rows_disjoint (true, old, new) = true /\
+  cisco_rows true (print_ccfg old) (print_ccfg new)
+  = Some [("vlan 5", ["no name"]); ("vlan 20", ["name y"])].
 Proof. vm_compute. repeat split. Qed.
